@@ -11,6 +11,7 @@ from lib import framework as fw
 from props import walk_common as wc
 from props import xargs_common as xc
 from props import names_common as nc
+from props import known_common as kc
 
 RULE = ("(tree of hostile names, -exec or -execdir, argument templates with 0-3 occurrences of {}, child exit status, position in the expression) "
         "cases with the real binary and a recorder child; plus (operation, path) pairs for the std::path model; "
@@ -122,6 +123,7 @@ def run(ctx):
                            "invocations": [[c.decode("utf-8", "replace"), [fw.hexs(x) for x in a]] for c, a in got_n] if isinstance(got_n, list) else None,
                            "expected": [[c.decode("utf-8", "replace"), [fw.hexs(x) for x in a]] for c, a in exp] if isinstance(exp, list) else None,
                            "printed": [fw.hexs(x) for x in printed], "expected_printed": [fw.hexs(x) for x in exp_printed]})
+        kc.argv_not_utf8_find(ctx, "C09", forest.dir, "template")
         ctx.sample({"templates": [t.decode() for t in TEMPLATES[:6]]})
     finally:
         forest.close()
